@@ -145,6 +145,13 @@ macro_rules! flag_reg {
         if t.shape(concat!($name, "::update"), &evs, $rk, $wk, $num, 1, 1) && (evs.last().unwrap().val != exp || get() != exp) {
             t.bad(concat!($name, "::update"), "not-read-modify-write", vec![("prior", J::hex(prior)), ("toggle", J::hex(tog)), ("expected", J::hex(exp)), ("written", J::hex(evs.last().unwrap().val))], &evs);
         }
+        // ... also when the closure changes nothing: the register is still written (with what was read)
+        set(prior);
+        let (_, evs) = trapemu::trapped(|| unsafe { $Reg::update(|_f| {}) });
+        t.rep.eval();
+        if t.shape(concat!($name, "::update(identity)"), &evs, $rk, $wk, $num, 1, 1) && evs.last().unwrap().val != prior {
+            t.bad(concat!($name, "::update(identity)"), "not-read-modify-write", vec![("prior", J::hex(prior)), ("written", J::hex(evs.last().unwrap().val))], &evs);
+        }
         // typed write -> typed read round trip
         set(prior);
         let (v, _) = trapemu::trapped(|| unsafe {
@@ -266,6 +273,17 @@ fn cr3_tests(t: &mut T) {
     if t.shape("Cr3::update", &evs, K::MovFromCr, K::MovToCr, 3, 1, 1) && evs.last().unwrap().val != exp {
         t.bad("Cr3::update", "not-read-modify-write", vec![("expected", J::hex(exp)), ("written", J::hex(evs.last().unwrap().val))], &evs);
     }
+    // an update whose closure changes nothing still reloads CR3 (the flush is the point), with the modelled bits only
+    set(prior);
+    let (_, evs) = trapemu::trapped(|| unsafe { Cr3::update(|_f, _fl| {}) });
+    t.rep.eval();
+    if t.shape("Cr3::update(identity)", &evs, K::MovFromCr, K::MovToCr, 3, 1, 1) && evs.last().unwrap().val != frame_bits | (low & 0x18) {
+        t.bad("Cr3::update(identity)", "not-read-modify-write", vec![("prior", J::hex(prior)), ("written", J::hex(evs.last().unwrap().val))], &evs);
+    }
+    set(prior);
+    let (_, evs) = trapemu::trapped(|| unsafe { Cr3::update_pcid(|_f, _p| {}) });
+    t.rep.eval();
+    let _ = t.shape("Cr3::update_pcid(identity)", &evs, K::MovFromCr, K::MovToCr, 3, 1, 1);
     set(prior);
     let (_, evs) = trapemu::trapped(|| unsafe { Cr3::update_pcid(|f, _p| *f = nframe) });
     t.rep.eval();
@@ -353,6 +371,10 @@ fn dr_tests(t: &mut T) {
     if t.shape("Dr7::write_raw", &evs, K::MovFromDr, K::MovToDr, 7, 1, 0) && evs[0].val != arg {
         t.bad("Dr7::write_raw", "not-exactly-the-given-value", vec![("value", J::hex(arg))], &evs);
     }
+    set(prior);
+    let (_, evs) = trapemu::trapped(|| Dr7::update(|_v| {}));
+    t.rep.eval();
+    let _ = t.shape("Dr7::update(identity)", &evs, K::MovFromDr, K::MovToDr, 7, 1, 1);
     set(prior);
     let tog = t.u64v() & DR7_MODELLED;
     let (_, evs) = trapemu::trapped(|| Dr7::update(|v| *v = Dr7Value::from_bits_truncate(v.bits() ^ tog)));
@@ -545,6 +567,10 @@ fn msr_tests(t: &mut T) {
     if msr_shape(t, "SFMask::update", &evs, MSR_SFMASK, 1, 1) && evs.last().unwrap().val != (prior & RFLAGS_MODELLED()) ^ 0x200 {
         t.bad("SFMask::update", "not-read-modify-write", vec![("prior", J::hex(prior & RFLAGS_MODELLED()))], &evs);
     }
+    trapemu::regs().msr_set(MSR_SFMASK, prior & RFLAGS_MODELLED());
+    let (_, evs) = trapemu::trapped(|| SFMask::update(|_f| {}));
+    t.rep.eval();
+    let _ = msr_shape(t, "SFMask::update(identity)", &evs, MSR_SFMASK, 1, 1);
     t.rep.class(&format!("SFMask|prior-unmodelled={}", prior & !RFLAGS_MODELLED() != 0));
 
     // U_CET / S_CET
@@ -580,6 +606,10 @@ fn msr_tests(t: &mut T) {
             if msr_shape(t, concat!(stringify!($R), "::update"), &evs, $num, 1, 1) && evs.last().unwrap().val != npage | (fl ^ 4) {
                 t.bad(concat!(stringify!($R), "::update"), "not-read-modify-write", vec![], &evs);
             }
+            trapemu::regs().msr_set($num, prior);
+            let (_, evs) = trapemu::trapped(|| $R::update(|_f, _p| {}));
+            t.rep.eval();
+            let _ = msr_shape(t, concat!(stringify!($R), "::update(identity)"), &evs, $num, 1, 1);
             t.rep.class(&format!("{}|{}", stringify!($R), gen::half(npage)));
         }};
     }
